@@ -212,8 +212,14 @@ void run_case(A const& a, bool hex, Big const* b, I sv)
     fputs(" => ", stdout);
     int vh_rc = sigsetjmp(vh::jb, 1);
     if (vh_rc == 0) {
-        auto z = cnl::sqrt(a);
-        print19(z);
+        // a checked overflow_integer reports through the hook (trapping / undefined tags: TRAP+ TRAP- UNREACHABLE)
+        // or by exception (throwing tag: THROW+ THROW-)
+        try {
+            auto z = cnl::sqrt(a);
+            print19(z);
+        } catch (std::overflow_error const& e) {
+            vh::print_throw(e);
+        }
     } else {
         vh::print_fail(vh_rc);
         if (vh_rc == SIGALRM) {
@@ -301,6 +307,22 @@ inline std::vector<Big> values(int D, Rng& rng, int nrand)
     return v;
 }
 
+// does any layer of A check for overflow (overflow_integer with any tag but native_overflow_tag)?  For such types a
+// representation value beyond the digits of an inner elastic/wide type is not merely "outside the property": the checked
+// operators may report it, so that stream is left out
+template<class A>
+constexpr bool has_checked_layer()
+{
+    if constexpr (_impl::is_wrapper<A>) {
+        using Tag = _impl::tag_of_t<A>;
+        if constexpr (_impl::is_overflow_tag<Tag>::value && !std::is_same_v<Tag, native_overflow_tag>)
+            return true;
+        else
+            return has_checked_layer<_impl::rep_of_t<A>>();
+    } else
+        return false;
+}
+
 // D = digits of the values the property quantifies over (elastic/wide: Digits; built-in: digits of the type)
 template<class A>
 constexpr int value_digits()
@@ -333,7 +355,7 @@ void go(Rng& rng, int nrand, bool exh)
         for (Big const& b : values(D, rng, nrand)) run_case(make<A>(b), hex, &b, 0);
     }
     // outside the property: representation values beyond the digits of an elastic/wide type
-    if constexpr (!hex && RD > D) {
+    if constexpr (!hex && RD > D && !has_checked_layer<A>()) {
         for (Big b : {big_pow2(D), big_add(big_pow2(D), big_u(1)), big_dec(big_pow2(RD)), big_dec(big_dec(big_pow2(RD)))})
             if (b.bitlen() <= RD) run_case(make<A>(b), hex, &b, 0);
         for (int i = 0; i < 8; ++i) {
